@@ -2,6 +2,7 @@ package gen
 
 import (
 	"crypto/sha256"
+	"encoding/binary"
 	"encoding/hex"
 	"encoding/json"
 	"fmt"
@@ -75,9 +76,37 @@ func FindProposal(s hist.State, id string) (store string, rec *ProposalRecord) {
 	return "", nil
 }
 
+// propOptionOf reads the proposal options in force for a proposal type from the dump.
+func propOptionOf(s hist.State, typ governance.ProposalType) *governance.ProposalOption {
+	luh := uint64(0)
+	if b, ok := s["g_proposalOptions_defaultOptions"]; ok && len(b) == 8 {
+		luh = binary.LittleEndian.Uint64(b)
+	}
+	v, ok := s["g_"+string(rune(luh))+"_proposal"]
+	if !ok {
+		return nil
+	}
+	set := &governance.ProposalOptionSet{}
+	if json.Unmarshal(v, set) != nil {
+		return nil
+	}
+	switch typ {
+	case governance.ProposalTypeConfigUpdate:
+		return &set.ConfigUpdate
+	case governance.ProposalTypeCodeChange:
+		return &set.CodeChange
+	}
+	return &set.General
+}
+
 func (g *Governance) create(c *Ctx, p *prop, cfg string) hist.TxSpec {
 	goal, _ := balance.NewAmountFromString(c.W.P.PropFundingGoal, 10)
 	optVoting := c.W.P.VotingDeadline
+	pass := 51
+	if o := propOptionOf(c.S, p.typ); o != nil {
+		// (the options in force, which configuration proposals of this history may have changed)
+		optVoting, pass = o.VotingDeadline, o.PassPercentage
+	}
 	msg := &govact.CreateProposal{
 		ProposalID:      governance.ProposalID(p.id),
 		ProposalType:    p.typ,
@@ -88,7 +117,7 @@ func (g *Governance) create(c *Ctx, p *prop, cfg string) hist.TxSpec {
 		FundingDeadline: p.fundDl,
 		FundingGoal:     goal,
 		VotingDeadline:  p.fundDl + optVoting,
-		PassPercentage:  51,
+		PassPercentage:  pass,
 		ConfigUpdate:    cfg,
 	}
 	sp := Build(c, "PROPOSAL_CREATE", msg, "create ("+p.plan+")", p.proposer)
@@ -134,7 +163,12 @@ func (g *Governance) newBatch(c *Ctx) []hist.TxSpec {
 		if pl == "config" {
 			p.typ = governance.ProposalTypeConfigUpdate
 			vals := []string{"onsOptions.perBlockFees:200000000000000", "onsOptions.baseDomainPrice:900000000000000000000", "feeOption.minFeeDecimal:10", "onsOptions.perBlockFees:100000000000000"}
-			cfg = vals[(g.n/20)%len(vals)]
+			if c.W.P.ProdGov {
+				// (the option validation looks at the whole option set: these keys can only be changed where the
+				// deadlines are inside its ranges)
+				vals = []string{"propOptions.configUpdate.passPercentage:60", "propOptions.general.passPercentage:55", "propOptions.codeChange.passPercentage:52", "propOptions.configUpdate.votingDeadline:10001", "propOptions.codeChange.fundingDeadline:10002", "propOptions.general.votingDeadline:75001", "propOptions.configUpdate.passPercentage:51", "propOptions.general.fundingDeadline:75002", "propOptions.codeChange.votingDeadline:150001", "propOptions.configUpdate.fundingDeadline:10003"}
+			}
+			cfg = vals[(g.n/20+int(c.W.P.VotingDeadline))%len(vals)]
 		}
 		if pl == "pass" && c.R.Intn(2) == 0 {
 			p.typ = governance.ProposalTypeCodeChange
